@@ -209,8 +209,10 @@ def rule_get_stub(ctx: Ctx, repo: Repo) -> None:
         for pattern in itertools.product(("good", "NameLookupError", "InvalidTypeError"), repeat=n):
             for verbose in (False, True):
                 thunks = K(tuple(R("thunk", id=K(i), outcome=K(o)) for i, o in enumerate(pattern)))
-                args = R("args", module_path=K((K("pkg.mod"), K(None))), limit=K(2000), verbose=K(verbose), disable_type_rewriting=K(False),
-                         existing_annotation_strategy=S("strategy"), sample_count=K(False), config=S("config"))
+                # the parsed command line is an object (argparse.Namespace): code may hang state of its own on it
+                st_args = State()
+                args = st_args.alloc("obj", {"__class__": K("argparse.Namespace"), "module_path": K((K("pkg.mod"), K(None))), "limit": K(2000), "verbose": K(verbose),
+                                             "disable_type_rewriting": K(False), "existing_annotation_strategy": S("strategy"), "sample_count": K(False), "config": S("config")})
                 ri = RepoInterp(repo, gs, may_fork=(), heap=True)
                 ri.interp.exc_parents = hier
                 prints: List[Tuple[str, V]] = []
@@ -224,7 +226,9 @@ def rule_get_stub(ctx: Ctx, repo: Repo) -> None:
                         o = fval.fields["outcome"].v
                         if o == "good":
                             return R("decoded", id=fval.fields["id"])
-                        st.pending = st.pending or o
+                        # every stale row of one deleted function fails with the very same message
+                        from mtsa.absint import raise_exc
+                        raise_exc(st, o, message=K(f"Module 'pkg.mod' has no attribute 'gone' ({o})"))
                         return U("stale")
                     if fname == "print":
                         _p.append(("print", kw.get("file", K("stdout")), st.freeze(a[0]) if a else K("")))
@@ -241,8 +245,20 @@ def rule_get_stub(ctx: Ctx, repo: Repo) -> None:
                     return None
 
                 ri.call_hook = hook
-                ri.interp.on_attr = lambda obj, attr, node, st: S(f"{obj.name}.{attr}") if isinstance(obj, S) else None
-                outs = ri.run({ps[0]: args, ps[1]: K("stdout"), ps[2]: K("stderr")})
+                base_on_attr = ri.on_attr
+
+                def on_attr_gs(obj, attr, node, st, _b=base_on_attr):
+                    if isinstance(obj, S):
+                        return S(f"{obj.name}.{attr}")
+                    if isinstance(obj, R) and obj.kind == "thunk" and attr != "to_trace":
+                        # what a store hands back is a CallTraceThunk: to_trace() is its whole contract (a custom store's thunks
+                        # have no `module` / `qualname`)
+                        st.pending = st.pending or "AttributeError"
+                        return U(f"a CallTraceThunk has no attribute {attr}")
+                    return _b(obj, attr, node, st)
+
+                ri.on_attr = ri.interp.on_attr = on_attr_gs  # type: ignore[method-assign]
+                outs = ri.run({ps[0]: args, ps[1]: K("stdout"), ps[2]: K("stderr")}, carry=st_args)
                 if len(outs) != 1:
                     raise AnalysisError("get_stub forked")
                 o = outs[0]
